@@ -780,9 +780,9 @@ def _joint_leaves(terms: list, guards=()):
 
 
 def read_returns(eng: Engine, ctx: Ctx, rid: str, model: ReaderModel | None = None):
-    ctx.rule(rid, "what `read` can return: the loop can only be left (i) by the EOF handler's `return (None, None)` or (ii) after an iteration that "
-                  "made the loop condition false, and on every such iteration end the returned variables hold the frame assembler's result; "
-                  "every other iteration end (continue / handler) leaves the loop condition unchanged")
+    ctx.rule(rid, "what `read` can return: `(None, None)` only from the EOFError handler, otherwise exactly the (raw, parsed) pair produced by the frame assembler in the "
+                  "same iteration - returned directly, or through loop-carried variables after an iteration that made the loop condition false; every other "
+                  "iteration end leaves the loop condition unchanged")
     m = model or ReaderModel(eng)
     f = m.read
     se, lid, info = m.se, m.lid, m.loop
@@ -791,15 +791,33 @@ def read_returns(eng: Engine, ctx: Ctx, rid: str, model: ReaderModel | None = No
     post = [e for e in rets if not e.loops]
     inloop = [e for e in rets if e.loops]
     loc = eng.loc(f, f.node)
-    ctx.check(len(post) == 1, rid, f.qualname, "post-loop return", expected="one return after the loop", found=f"{len(post)}", **loc)
+    if not m.asm_calls:
+        ctx.bad(rid, f.qualname, "frame assembler call", expected="one call", found="none", **loc)
+        return n
+    call = m.asm_calls[0].term
+    pair = ("tuple", (("proj", call, 0), ("proj", call, 1)))
+    eof = []
+    direct = []
     for e in inloop:
         n += 1
-        good = e.handler is not None and "EOFError" in norm(e.handler.type or ast.Name(id="")) and e.term == ("const", (None, None))
-        ctx.check(good, rid, f.qualname, norm(e.node), expected="the only in-loop return is `return (None, None)` in the EOFError handler", found=f"{show(e.term)[:40]} in handler {norm(e.handler.type) if e.handler is not None and e.handler.type is not None else '-'}", **eng.loc(f, e.node))
-    eof = [e for e in inloop if e.handler is not None and "EOFError" in norm(e.handler.type or ast.Name(id="")) and e.term == ("const", (None, None))]
+        is_eof = e.handler is not None and "EOFError" in norm(e.handler.type or ast.Name(id="")) and e.term == ("const", (None, None))
+        is_frame = e.handler is None and e.term in (pair, call) and set(m.asm_calls[0].guards) <= set(e.guards)
+        if is_eof:
+            eof.append(e)
+        elif is_frame:
+            direct.append(e)
+        ctx.check(is_eof or is_frame, rid, f.qualname, norm(e.node), expected="`return (None, None)` in the EOFError handler, or the frame assembler's (raw, parsed)",
+                  found=f"{show(e.term)[:60]}" + (f" in handler {norm(e.handler.type)}" if e.handler is not None and e.handler.type is not None else ""), **eng.loc(f, e.node))
     ctx.check(len(eof) >= 1, rid, f.qualname, "end of data ends the iteration cleanly", expected="`except EOFError: return (None, None)` inside the loop", found=f"{len(eof)} such return(s)", **loc)
-    if not post or not m.asm_calls:
+    ctx.check(len(post) + len(direct) >= 1, rid, f.qualname, "a frame can be returned", expected="a return of the assembler's result", found=f"{len(post)} post-loop, {len(direct)} direct", **loc)
+    if not post:
+        # `while True` style: the loop is left only by the returns examined above
+        tst = info.get("test")
+        ctx.check(tst is not None and is_const(tst) and bool(tst[1]) and not [k for k, _ in info.get("ends", []) if k == "break"], rid, f.qualname, "loop exits",
+                  expected="no exit other than the returns", found=show(tst) if tst else "?", **loc)
+        ctx.instance("iteration ends examined", len(info.get("ends", [])) + len(inloop), 5)
         return n
+    ctx.check(len(post) == 1, rid, f.qualname, "post-loop return", expected="one return after the loop", found=f"{len(post)}", **loc)
     rv = post[0].term
     names = []
     if rv[0] == "tuple" and len(rv[1]) == 2 and all(x[0] == "loopout" and x[1] == lid for x in rv[1]):
@@ -815,7 +833,6 @@ def read_returns(eng: Engine, ctx: Ctx, rid: str, model: ReaderModel | None = No
     flag = cond_vars[0]
     init = info["pre"].get(flag)
     ctx.check(is_const(init) and bool(init[1]), rid, f.qualname, f"initial {flag}", expected="truthy constant (the loop body runs before anything is returned)", found=show(init) if init else "unbound", **loc)
-    call = m.asm_calls[0].term
     ends = [("fall-through", info.get("body_end"), info.get("body_dead"))] + [(k, st.env, None) for k, st in info.get("ends", [])]
     for kind, env, dead in ends:
         if env is None or (kind == "fall-through" and dead):
@@ -824,12 +841,8 @@ def read_returns(eng: Engine, ctx: Ctx, rid: str, model: ReaderModel | None = No
         vals = [env.get(nm, ("undef", nm)) for nm in names]
         for g, (flv, a, b) in _joint_leaves([fl] + vals):
             n += 1
-            if kind == "break":
-                exits = True
-            elif flv == ("loop", lid, flag) or (is_const(flv) and bool(flv[1])):
+            if kind != "break" and (flv == ("loop", lid, flag) or (is_const(flv) and bool(flv[1]))):
                 continue  # loop condition unchanged / still true: no exit on this iteration end
-            else:
-                exits = True
             good = a == ("proj", call, 0) and b == ("proj", call, 1)
             ctx.check(good, rid, f.qualname, f"iteration end ({kind}) that can leave the loop" + (f" under {guard_text(g)[:60]}" if g else ""), expected="returned variables = (raw, parsed) of the frame assembler",
                       found=f"{names[0]} = {show(a)[:50]}, {names[1]} = {show(b)[:50]}", **loc)
@@ -971,13 +984,19 @@ def ubx_skip(eng: Engine, ctx: Ctx, rid: str, model: ReaderModel):
     if len(reads) == 2:
         r1, r2 = reads[0].term, reads[1].term
         ctx.check(r1[3][0] == ("const", fr["header_after_sync"]), rid, f.qualname, "first request", expected=f"{fr['header_after_sync']} bytes (class, id, length)", found=show(r1[3][0]), **eng.loc(f, reads[0].node))
-        p = to_poly(r2[3][0])
+        atoms = {}
+
+        def symn(t):
+            # any non-polynomial sub-term (from_bytes call, shifts/ors of header bytes) is the length atom
+            if t[0] == "call" or (t[0] == "bin" and t[1] in ("|", "<<", "&", "^")):
+                atoms[f"L{len(atoms)}" if t not in atoms.values() else next(k for k, v in atoms.items() if v == t)] = t
+                return next(k for k, v in atoms.items() if v == t)
+            return show(t)
+
+        p = to_poly(r2[3][0], symn)
         syms = sorted(p.symbols()) if p is not None else []
-        Lterm = None
-        for st in subterms(r2[3][0]):
-            if isinstance(st, tuple) and st and st[0] == "call" and st[2] == ("attr", ("builtin", "int"), "from_bytes"):
-                Lterm = st
-        okp = p is not None and len(syms) == 1 and p.coef(syms[0]) == 1 and p.const_value() == fr["checksum_bytes"] and Lterm is not None and show(Lterm) == syms[0]
+        Lterm = atoms.get(syms[0]) if len(syms) == 1 else None
+        okp = p is not None and len(syms) == 1 and p.coef(syms[0]) == 1 and p.const_value() == fr["checksum_bytes"] and Lterm is not None
         ctx.check(bool(okp), rid, f.qualname, "second request", expected=f"L + {fr['checksum_bytes']}", found=repr(p) if p is not None else show(r2[3][0])[:80], **eng.loc(f, reads[1].node))
         if Lterm is not None:
             bvc = BVContext()
@@ -1000,14 +1019,25 @@ def ubx_skip(eng: Engine, ctx: Ctx, rid: str, model: ReaderModel):
 
 
 def _ends_in_continue(eng, ctx, rid, model, call_effect, label):
-    """The iteration in which `call_effect` ran ends without touching the loop flag and performs no further read."""
+    """After a foreign-protocol item has been skipped nothing else happens in that iteration: no further stream request,
+    no frame assembly, no return/raise, and (for a flag-controlled loop) the loop condition is left unchanged."""
     rd = model.read
-    flag_sym = None
+    need = set(call_effect.guards)
+
+    def same_path(e):
+        return e.loops[:1] == call_effect.loops[:1] and any(need <= set(conj) for conj in e.dnf)
+
+    later = [e for e in model.se.effects if e.seq > call_effect.seq and same_path(e) and e.handler is call_effect.handler]
+    bad = [e for e in later if e.kind in ("return", "raise") or (e.kind == "call" and (model.is_read(e.term) or any(is_self_call(e.term, n) for n in
+           (model.asm.name, eng.line_primitive.split(".")[-1], eng.ubx_skipper.split(".")[-1], eng.nmea_skipper.split(".")[-1]))))]
+    ctx.check(not bad, rid, rd.qualname, f"{label} branch ends the iteration", expected="nothing consumed, returned or raised after the skip",
+              found=", ".join(f"{e.kind} {norm(e.node)[:40]}" for e in bad[:3]) or "-", **eng.loc(rd, call_effect.node))
     test = model.loop.get("test")
-    later_reads = [e for e in model.se.effects if e.kind == "call" and e.seq > call_effect.seq and (model.is_read(e.term) or is_self_call(e.term, model.asm.name)) and any(call_effect.term == c2 for c2 in [])]
-    ends = [(k, st) for k, st in model.loop.get("ends", []) if any(("proj", call_effect.term, 0) == v or ("proj", call_effect.term, 1) == v for v in st.env.values())]
-    ok = bool(ends) and all(k == "continue" and st.env.get(test[2] if test and test[0] == "loop" else "", None) == test for k, st in ends)
-    ctx.check(ok, rid, rd.qualname, f"{label} branch ends the iteration", expected="continue with the loop condition unchanged", found=", ".join(k for k, _ in ends) or "no iteration end carries the skipper's result", **eng.loc(rd, call_effect.node))
+    if test is not None and test[0] == "loop":
+        flag = test[2]
+        ends = [(k, st) for k, st in model.loop.get("ends", []) if need <= set(st.guards)]
+        changed = [k for k, st in ends if st.env.get(flag) != test or k == "break"]
+        ctx.check(not changed, rid, rd.qualname, f"{label} branch keeps the loop running", expected="loop condition unchanged, no break", found=", ".join(changed) or "-", **eng.loc(rd, call_effect.node))
 
 
 def nmea_skip(eng: Engine, ctx: Ctx, rid: str, model: ReaderModel):
